@@ -79,7 +79,7 @@ def shape(td):
         return "M" + a + b
     if k == "reg":
         if td["name"] not in REG:
-            return None           # a registered type outside the model's registry (Key, HKey, Node, Rec)
+            return None           # a registered type outside the model's registry (Key, HKey, Labels, Node)
         fs = [(n, shape(t)) for n, t in REG[td["name"]]]
         return "S" + td["name"].encode().hex() + "{" + ";".join(n.encode().hex() + ":" + s for n, s in fs) + "}"
     if k == "anon":
@@ -263,6 +263,9 @@ def modelled(c):
     if c.get("o"):
         if c["entry"] != "unmarshal" or has_iface(c["t"]):
             return False
+    b = bytes.fromhex(c["hex"])
+    if any(nm in b for nm in (b'"Key"', b'"HKey"', b'"Labels"', b'"Node"')):
+        return False              # classes the executor registers beyond the model's registry (Pt, User)
     return True
 
 
@@ -782,7 +785,6 @@ CYCLE_DESTS = [             # (entry, destination, template with %v value and %s
     ("unmarshal", {"k": "slice", "e": I_}, 'a2{%vm1{%s1}}', {"map": 1}),
     ("unmarshal", I_, 'a2{%vm1{%s1}}', {"map": 1}),
     ("unmarshal", I_, 'a2{%vm1{%s1}}', {"map": 1, "struct": 1, "list": 1}),
-    ("unmarshal", ST(("A", {"k": "reg", "name": "Rec"}), ("B", S_)), 'm2{s1"a"%vs1"b"%s}', None),
     ("unmarshal", ST(("A", {"k": "reg", "name": "Node"}), ("B", S_)), 'm2{s1"a"%vs1"b"%s}', None),
     ("client", [I_, S_], 'Ra2{%v%s}z', None),
     ("client", [I_, {"k": "slice", "e": S_}], 'Ra2{%va1{%s}}z', None),
@@ -846,7 +848,7 @@ def generate_wide(ctx, g, seeds):
                     base = {"entry": entry, "mode": "ref", "t": dest} if entry == "unmarshal" else {"entry": entry, "rt": dest}
                     if o:
                         base["o"] = o
-                    g.add("cycle", base, data)
+                    g.add("cycle", base, data, stack=64, fam="graphs-%d" % CYCLE_DESTS.index((entry, dest, tmpl, o)))
     # the same container many times over: k levels, each holding the level below twice (2^k leaves in print)
     for k in (12, 22, 30):
         for off in range(4):
@@ -856,7 +858,7 @@ def generate_wide(ctx, g, seeds):
                 for si in range(4):
                     data = lat(tmpl.replace("%v", v).replace("%s", "r%d;" % si))
                     base = {"entry": entry, "mode": "ref", "t": dest} if entry == "unmarshal" else {"entry": entry, "rt": dest}
-                    g.add("share", base, data)
+                    g.add("share", base, data, stack=64, fam="graphs-share")
 
     # (h) numbers written with an exponent, into every destination that parses or converts a number
     for txt in EXP_TEXTS:
@@ -1096,7 +1098,7 @@ def run(ctx):
         if big:
             heavy.append(c)
         elif c["gen"] in WIDE_FAMILY:
-            wide.setdefault(WIDE_FAMILY[c["gen"]], []).append(c)
+            wide.setdefault(c.get("fam") or WIDE_FAMILY[c["gen"]], []).append(c)
         else:
             light.append(c)
     budget = 12 if ctx.tier == "quick" else 60
@@ -1107,7 +1109,7 @@ def run(ctx):
         hang = m.get("steps", 0) >= HANG_STEPS and max(m.get("alloc", 0), m.get("rsv", 0)) < (1 << 30)
         sig = (c["entry"], json.dumps(c.get("t") or c.get("rt") or c.get("svc")), "hang" if hang else "mem", c["hex"][:2])
         if m["class"] == "panic:big-exp":
-            sig = ("big-exp", c["t"]["k"] if c.get("t") else c["entry"], c["hex"][:2])
+            continue
         if sig in sig_seen:
             continue
         if hang:
@@ -1118,7 +1120,20 @@ def run(ctx):
             break
         sig_seen[sig] = 1
         chosen.append(c)
-    ctx.note("heavy_cases", {"model_predicted": len(heavy), "executed": len(chosen)})
+    # numbers the model expects to be built in full: the ones whose written exponent is nearest 10^8 first (tens of
+    # megabytes, well under a second each), one per (destination, tag)
+    def exp_rank(c):
+        mm = re.search(rb"[eEpP][+-]?(\d+)", bytes.fromhex(c["hex"]))
+        return (abs(len(mm.group(1)) - 9) if mm else 99, len(c["hex"]), c["hex"])
+    be_seen, n_be = set(), 0
+    for c in sorted([c for c in heavy if model[c["id"]]["class"] == "panic:big-exp"], key=exp_rank):
+        sig = (json.dumps(c.get("t") or c.get("rt")), c["hex"][:2])
+        if sig in be_seen or n_be >= (6 if ctx.tier == "quick" else 40):
+            continue
+        be_seen.add(sig)
+        n_be += 1
+        chosen.append(c)
+    ctx.note("heavy_cases", {"model_predicted": len(heavy), "executed": len(chosen), "of_them_exponents": n_be})
 
     obs, crashes = run_impl_frames(light, 4000, 4 if ctx.tier == "quick" else 30)
     T["impl_light"] = round(time.time() - t0, 1); t0 = time.time()
@@ -1131,10 +1146,14 @@ def run(ctx):
     wide_note = {}
     for fam in sorted(wide):
         batch = wide[fam]
-        o3, c3 = run_impl_frames(batch, 12 if ctx.tier == "quick" else 120, 2 if ctx.tier == "quick" else 12)
+        small = fam.startswith("graphs-")
+        o3, c3 = run_impl_frames(batch, (4 if small else 12) if ctx.tier == "quick" else (30 if small else 120), 2 if ctx.tier == "quick" else 12)
         obs.update(o3)
         crashes.update(c3)
-        wide_note[fam] = {"cases": len(batch), "not_run": sum(1 for v in c3.values() if v[1] == -1)}
+        fam0 = fam.split("-")[0] if fam.startswith("graphs-") else fam
+        wide_note.setdefault(fam0, {"cases": 0, "not_run": 0})
+        wide_note[fam0]["cases"] += len(batch)
+        wide_note[fam0]["not_run"] += sum(1 for v in c3.values() if v[1] == -1)
     ctx.note("wide_families", wide_note)
     T["impl_wide"] = round(time.time() - t0, 1); t0 = time.time()
     ctx.rng.shuffle(alone)
@@ -1248,7 +1267,7 @@ def run(ctx):
         ctx.sample("%s %s -> model %s" % (c["entry"], c["hex"][:40], model[c["id"]]["class"]))
 
     for key, (n, c, what, mraw) in sorted(failing.items()):
-        cc = {k: v for k, v in c.items() if k not in ("id", "gen")}
+        cc = {k: v for k, v in c.items() if k not in ("id", "gen", "fam")}
         ctx.report(key, "%s on %s input %s (%s)" % (what, c["entry"], c["hex"][:80], c.get("gen")),
                    {"case": cc, "failing_input": True, "model": mraw, "input_ascii": bytes.fromhex(c["hex"])[:120].decode("latin1")})
     # disagreements whose case passes the property oracle: the model no longer describes the code
